@@ -210,7 +210,7 @@ func TestCheck(t *testing.T) {
 	sc := newScanner()
 	depth := 3
 	if env.Thorough() {
-		depth = 4
+		depth = 5
 	}
 	// (a)+(c): all histories up to depth over the marker alphabet
 	sec := rep.Add(&report.Section{Name: fmt.Sprintf("at-rest-scan-all-histories-depth%d", depth), Engine: "seqx", Exhaustive: true, Extra: map[string]int64{},
@@ -292,6 +292,10 @@ func TestCheck(t *testing.T) {
 		}
 	}
 	rec = func(dp int) {
+		if env.Expired() {
+			sec.Exhaustive = false
+			return
+		}
 		runHist()
 		if dp == depth {
 			return
